@@ -647,6 +647,16 @@ func (s *Service) streamResponse(clientCtx, upstreamCtx context.Context, w http.
 	readDeadline := time.NewTimer(s.configuration.GetReadTimeout())
 	defer readDeadline.Stop()
 
+	// The body read below blocks until the backend sends something, so a backend that stops
+	// sending never lets the loop come back to look at readDeadline. This watchdog closes the
+	// body, which fails the pending read, once a whole read timeout passed without data
+	var stalled atomic.Bool
+	stallWatchdog := time.AfterFunc(s.configuration.GetReadTimeout(), func() {
+		stalled.Store(true)
+		_ = resp.Body.Close()
+	})
+	defer stallWatchdog.Stop()
+
 	for {
 		// Check for context cancellation
 		if err := s.checkContexts(clientCtx, upstreamCtx, readDeadline, state, rlog); err != nil {
@@ -664,9 +674,13 @@ func (s *Service) streamResponse(clientCtx, upstreamCtx context.Context, w http.
 			}
 		}
 		readDeadline.Reset(s.configuration.GetReadTimeout())
+		stallWatchdog.Reset(s.configuration.GetReadTimeout())
 
 		// Read and process data
 		if err := s.processStreamData(resp, buffer, state, w, isStreaming, rc, rlog); err != nil {
+			if stalled.Load() {
+				return state.totalBytes, state.lastChunk, fmt.Errorf("read timeout after %v", s.configuration.GetReadTimeout())
+			}
 			if errors.Is(err, io.EOF) {
 				return state.totalBytes, state.lastChunk, nil
 			}
